@@ -1,20 +1,23 @@
-import FeatherModel.Lemmas.TinyEscape
+import FeatherModel.Lemmas.TinyReject
 import FeatherModel.Lemmas.TinyDup
 
 /-!
 # C03 — Tiny v2 files round-trip and are written canonically
 
 Model: `FeatherModel/Model/Tiny.lean` (`Tiny.write`, `Tiny.write?`, `Tiny.read n` for `quill::tiny_v2::{write_vec, read::<N>}`,
-`quill/src/lines.rs`, `add_child`). Mapping sets are association lists in `IndexMap` order; `n` (the const generic `N`)
-is a value, so every theorem below is for **every** number of namespaces (`2 ≤ n` is part of the domain), not only 2..4.
+`quill/src/lines.rs`, `add_child`), the code after the fixes a79b1fd (injective comment escaping) and 4f3eba6 (`write`
+refuses cells a tiny file cannot hold). Mapping sets are association lists in `IndexMap` order; `n` (the const generic
+`N`) is a value, so every theorem below is for **every** number of namespaces (`2 ≤ n` is part of the domain), not only 2..4.
 
 * round trip: `read_write`, `read_write_content`, `read_write_canonical`, `write_succeeds` on the decidable domain
-  `Tiny.writable n m`; the witnesses of section 5 show that each condition of the domain is needed;
+  `Tiny.writable n m` (comments are arbitrary); `unescape_escape`, `escape_injective`;
+* what `write` refuses: `write_rejects_iff`, `write_rejects_where`, `write_accepts` — a refused set is an `Err`, never a
+  corrupted file or a panic (regressions `name_tab_cr_lf_rejected`, `non_utf8_rejected`);
 * order independence: `write_perm`, `write_perm_dec`, `write_perm_classes`, `write_canon`, `sort_key_separates_*`;
-* fixed point: `write_fixed_point` (on the wider domain `Tiny.writableE`: comments may contain backslash-`n`),
-  `read_write_escaped`;
+* fixed point: `write_fixed_point`;
 * reading never merges, loses or re-parents: `step_appends`, `read_counts`, `read_wf`, `read_closed_classes_final`,
-  `read_dup_class / _field / _method / _param`, `read_dup`, `read_error_propagates`.
+  `read_dup_class / _field / _method / _param`, `read_dup`, `read_error_propagates`;
+* still open: `toplevel_doc_witness` (the comment of the mapping set itself is written where `read` rejects it).
 -/
 
 namespace Thm.C03
@@ -62,7 +65,7 @@ def exM4 : Mappings :=
             { desc := [40, 41, 86], names := [some [60, 105, 110, 105, 116, 62], none, none, none], doc := none,
               params := [(3, { index := 3, names := [none, none, none, none], doc := none })] })] })] }
 
-/-- a class comment holding the two characters backslash, `n` -/
+/-- a class comment holding the two characters backslash, `n` (read back as a line feed before fix a79b1fd) -/
 def exBsN : Mappings :=
   { ns := [[97], [98]], doc := none,
     classes := [([65], { names := [some [65], some [66]], doc := some [120, 92, 110, 121], fields := [], methods := [] })] }
@@ -72,19 +75,42 @@ example : canon exM ≠ exM := by decide
 example : writable 2 exM' = true ∧ contentEqB exM exM' = true ∧ exM ≠ exM' := by decide
 example : writable 3 exM3 = true ∧ canon exM3 ≠ exM3 := by decide
 example : writable 4 exM4 = true := by decide
-example : writable 2 exBsN = false ∧ writableE 2 exBsN = true := by decide
+example : writable 2 exBsN = true := by decide
+
+/-- comments with everything that used to break: `a\\b`, backslash-`n`, TAB, LF, a trailing CR, a lone backslash at the end -/
+def exDocs : Mappings :=
+  { ns := [[97], [98]], doc := none,
+    classes := [
+      ([65],
+        { names := [some [65], some [66]], doc := some [97, 92, 92, 98, 92, 110, 9, 10, 13],
+          fields := [(([102], [73]), { desc := [73], names := [some [102], none], doc := some [92] })],
+          methods := [(([109], [40, 41, 86]),
+            { desc := [40, 41, 86], names := [some [109], none], doc := some [92, 116, 92, 114, 13, 10, 92, 92, 110],
+              params := [(0, { index := 0, names := [none, none], doc := some [9, 9, 92] })] })] })] }
+
+example : writable 2 exDocs = true := by decide
+example : read 2 (write exDocs) = some (canon exDocs) := by decide
 /-- the domain is inhabited for every `n ≥ 2` -/
 example (n : Nat) (h : 2 ≤ n) : writable n { ns := List.replicate n [97], doc := none, classes := [] } = true := by
   simp [writable, wf, keysNodup, h, cellOk, isSurrogate]
 
 /-! ## 1. round trip -/
 
-/-- on the domain `write` returns its text (no panic) -/
+/-- on the domain `write` returns its text -/
 theorem write_succeeds {n : Nat} {m : Mappings} (h : writable n m = true) : write? m = some (write m) := by
-  simp [write?, writable_displayable h]
+  simp [write?, writable_writeOk h]
+
+/-- **`unescape` undoes `escape` for every comment** (fix a79b1fd; before it, backslash-`n` came back as a line feed) -/
+theorem unescape_escape (d : JStr) : unescape (escape d) = d := Tiny.unescape_escape d
+
+/-- `escape` is injective: two comments are never written alike -/
+theorem escape_injective {a b : JStr} (h : escape a = escape b) : a = b := Tiny.escape_injective h
+
+/-- an escaped comment is one cell of one line: no TAB, LF, CR -/
+theorem escape_one_cell (d : JStr) : 9 ∉ escape d ∧ 10 ∉ escape d ∧ 13 ∉ escape d := escape_clean d
 
 /-- **`read (write m) = ok (canon m)`**: everything comes back — namespaces, every class / field / method / parameter with
-its names per namespace, descriptor, index and comment — each level in the order `write` emits it. For every `n`. -/
+its names per namespace, descriptor, index and comment (any comment) — each level in the order `write` emits it. For every `n`. -/
 theorem read_write {n : Nat} {m : Mappings} (h : writable n m = true) : read n (write m) = some (canon m) :=
   read_write_writable h
 
@@ -164,36 +190,64 @@ theorem write_perm_wf_witness :
 
 /-! ## 3. fixed point -/
 
-/-- what comes back on the wider domain `writableE` (comments may contain backslash-`n`): the canonical form of the set
-whose comments went through `unescape ∘ escape` -/
-theorem read_write_escaped {n : Nat} {m : Mappings} (h : writableE n m = true) :
-    read n (write m) = some (canon (reDocM m)) :=
-  read_write_writableE h
+/-- **`write (read (write m)) = write m`**, byte for byte -/
+theorem write_fixed_point {n : Nat} {m : Mappings} (h : writable n m = true) :
+    ∃ r, read n (write m) = some r ∧ write? r = write? m ∧ write? m = some (write m) :=
+  ⟨canon m, read_write h, write?_canon m, write_succeeds h⟩
 
-/-- **`write (read (write m)) = write m`**, byte for byte, also where the round trip itself fails because of backslash-`n` -/
-theorem write_fixed_point {n : Nat} {m : Mappings} (h : writableE n m = true) :
-    ∃ r, read n (write m) = some r ∧ write? r = write? m ∧ write? m = some (write m) := by
-  refine ⟨canon (reDocM m), read_write_writableE h, ?_, ?_⟩
-  · rw [write?_canon, write?_reDoc]
-  · rw [← write?_reDoc, write_succeeds (writable_reDoc h), write_reDoc]
-
-/-- the domain of the round trip is part of the domain of the fixed point -/
-theorem writable_subdomain {n : Nat} {m : Mappings} (h : writable n m = true) : writableE n m = true :=
-  writableE_of_writable h
-
-/-- on the narrow domain, stated through the canonical form -/
+/-- stated through the canonical form -/
 theorem write_fixed_point_canon {n : Nat} {m : Mappings} (h : writable n m = true) :
     read n (write m) = some (canon m) ∧ write? (canon m) = some (write m) := by
   refine ⟨read_write h, ?_⟩
   rw [write?_canon, write_succeeds h]
 
-example : ∃ r, read 2 (write exBsN) = some r ∧ r ≠ canon exBsN ∧ write? r = write? exBsN := by
-  obtain ⟨r, h1, h2, _⟩ := write_fixed_point (n := 2) (m := exBsN) (by decide)
-  refine ⟨r, h1, ?_, h2⟩
-  intro e
-  rw [e] at h1
-  revert h1
-  decide
+example : ∃ r, read 2 (write exDocs) = some r ∧ write? r = write? exDocs :=
+  let ⟨r, h1, h2, _⟩ := write_fixed_point (n := 2) (m := exDocs) (by decide)
+  ⟨r, h1, h2⟩
+
+/-! ## 3b. what `write` refuses -/
+
+/-- **`write` fails exactly when** some namespace, present name or descriptor does not pass `cell`
+(`writeOk` is the conjunction over all of them); the failure is a clean `Err` (`write? = none`), there is no other outcome -/
+theorem write_rejects_iff (m : Mappings) : write? m = none ↔ writeOk m = false := write?_none_iff m
+
+/-- spelled out: a refused set has a namespace, a present name (class, field, method or parameter row) or a descriptor
+containing TAB, LF, CR or a lone surrogate (`BadCell`) — and every such set is refused -/
+theorem write_rejects_where (m : Mappings) : write? m = none ↔
+    (∃ s ∈ m.ns, BadCell s) ∨
+    ∃ e ∈ m.classes, BadNames e.2.names ∨
+      (∃ f ∈ e.2.fields, BadCell f.2.desc ∨ BadNames f.2.names) ∨
+      (∃ me ∈ e.2.methods, BadCell me.2.desc ∨ BadNames me.2.names ∨ ∃ p ∈ me.2.params, BadNames p.2.names) :=
+  (write?_none_iff m).trans (writeOk_false_iff m)
+
+theorem bad_cell_iff (s : JStr) : cellOk s = false ↔ (9 ∈ s ∨ 10 ∈ s ∨ 13 ∈ s ∨ ∃ c ∈ s, isSurrogate c = true) :=
+  cellOk_false_iff s
+
+/-- everything else is written (comments never make `write` fail) -/
+theorem write_accepts {m : Mappings} (h : writeOk m = true) : write? m = some (write m) := write?_of_writeOk h
+
+/-- no file corruption: on the domain, splitting the written text into lines gives back exactly the lines `write` emitted
+(no cell or comment can break the line structure) -/
+theorem written_lines_intact {n : Nat} {m : Mappings} (h : writable n m = true) :
+    lines (write m) = writeLines m := by
+  simp only [writable, Bool.and_eq_true, decide_eq_true_eq, beq_iff_eq, List.all_eq_true, Bool.not_eq_true',
+    Option.isNone_iff_eq_none] at h
+  obtain ⟨⟨⟨⟨⟨_, _⟩, hns⟩, hdoc⟩, _⟩, hcls⟩ := h
+  have hhead := header_parsed (ns := m.ns) (fun s hs => (hns s hs).2)
+  have hparsed : Parsed (writeLines m)
+      ({ indent := 0, first := TINY, fields := [50] :: [48] :: m.ns } :: (sortBy classLe m.classes.values).flatMap classT) := by
+    unfold writeLines
+    rw [hdoc]
+    apply Parsed.cons hhead.1 hhead.2
+    simp only [docLines, List.nil_append]
+    apply Parsed.flatMap
+    intro c hc
+    have := mem_sortBy.mp hc
+    simp only [AList.values, List.mem_map] at this
+    obtain ⟨⟨k, v⟩, he, rfl⟩ := this
+    exact classLines_parsed (hcls (k, v) he)
+  unfold write
+  exact lines_write _ hparsed.ok
 
 /-! ## 4. reading never merges, loses or re-parents -/
 
@@ -276,18 +330,24 @@ example : read 2 [116, 105, 110, 121, 9, 50, 9, 48, 9, 97, 9, 98, 10, 99, 9, 65,
 example : ∃ m, read 2 (write exM) = some m ∧ countOf .par m.classes = 2 ∧ countOf .doc m.classes = 3 := by
   refine ⟨canon exM, by decide, by decide, by decide⟩
 
-/-! ## 5. what the format cannot express: each condition of `writable` is needed (all replayed against the real code) -/
+/-! ## 5. regressions of the fixed defects, and what is still open (all replayed against the real code) -/
 
-/-- `escape` is not injective: a line feed and the two characters backslash, `n` are written alike -/
-theorem escape_not_injective_witness : escape [10] = escape [92, 110] ∧ ([10] : JStr) ≠ [92, 110] := by decide
+/-- (was `comment_backslash_n_witness`) a comment `x\ny` (backslash, `n`) now comes back as it was -/
+theorem comment_backslash_n_regression : read 2 (write exBsN) = some (canon exBsN) ∧ canon exBsN = exBsN := by decide
 
-/-- a comment `x\ny` (backslash, `n`) reads back as `x⏎y` -/
-theorem comment_backslash_n_witness :
-    read 2 (write exBsN) = some { exBsN with classes :=
-      [([65], { names := [some [65], some [66]], doc := some [120, 10, 121], fields := [], methods := [] })] } ∧
-    read 2 (write exBsN) ≠ some (canon exBsN) := by decide
+/-- (was `escape_not_injective_witness`) a line feed and the two characters backslash, `n` are written differently -/
+theorem escape_lf_vs_backslash_n_regression : escape [10] = [92, 110] ∧ escape [92, 110] = [92, 92, 110] := by decide
 
-/-- the comment of the mapping set itself is written at indentation 1 — where `read` expects indentation 0 -/
+def exDoc (d : JStr) : Mappings :=
+  { ns := [[97], [98]], doc := none,
+    classes := [([65], { names := [some [65], some [66]], doc := some d, fields := [], methods := [] })] }
+
+/-- (was `doc_cr_tab_witness`) a comment ending in CR and a comment containing TAB come back as they were -/
+theorem doc_cr_tab_regression :
+    read 2 (write (exDoc [100, 13])) = some (exDoc [100, 13]) ∧ read 2 (write (exDoc [100, 9, 101])) = some (exDoc [100, 9, 101]) := by
+  decide
+
+/-- **still open**: the comment of the mapping set itself is written at indentation 1 — where `read` expects indentation 0 -/
 theorem toplevel_doc_witness :
     write? { exM3 with doc := some [116] } = some (write { exM3 with doc := some [116] }) ∧
     read 3 (write { exM3 with doc := some [116] }) = none := by decide
@@ -296,32 +356,6 @@ def exName (name : JStr) : Mappings :=
   { ns := [[97], [98]], doc := none,
     classes := [([65], { names := [some [65], some name], doc := none, fields := [], methods := [] })] }
 
-/-- a TAB in a name: one cell too many, `read` fails -/
-theorem name_tab_witness : namesOk validClass 2 [some [65], some [66, 9, 67]] = false ∧ read 2 (write (exName [66, 9, 67])) = none := by
-  decide
-
-/-- a CR at the end of the last name of a row is dropped silently (`BufRead::lines`) -/
-theorem name_cr_witness : read 2 (write (exName [66, 13])) = some (exName [66]) := by decide
-
-/-- LF and TAB in a name (`B⏎c⇥C⇥D`, a valid `ObjClassName`): the reader sees a second class that was never there -/
-theorem name_lf_witness :
-    read 2 (write (exName [66, 10, 99, 9, 67, 9, 68])) = some { exName [66] with classes :=
-      [([65], { names := [some [65], some [66]], doc := none, fields := [], methods := [] }),
-       ([67], { names := [some [67], some [68]], doc := none, fields := [], methods := [] })] } := by decide
-
-/-- a comment ending in CR loses it; a comment containing TAB cannot be read -/
-theorem doc_cr_tab_witness :
-    read 2 (write { exBsN with classes := [([65], { names := [some [65], some [66]], doc := some [100, 13], fields := [], methods := [] })] })
-      = some { exBsN with classes := [([65], { names := [some [65], some [66]], doc := some [100], fields := [], methods := [] })] } ∧
-    read 2 (write { exBsN with classes := [([65], { names := [some [65], some [66]], doc := some [100, 9, 101], fields := [], methods := [] })] })
-      = none := by decide
-
-/-- the fixed point fails for names with CR or LF: the text written after reading differs from the first text -/
-theorem fixed_point_cr_lf_name_witness :
-    (∃ r, read 2 (write (exName [66, 13])) = some r ∧ write r ≠ write (exName [66, 13])) ∧
-    (∃ r, read 2 (write (exName [66, 10])) = some r ∧ write r ≠ write (exName [66, 10])) :=
-  ⟨⟨exName [66], by decide, by decide⟩, ⟨exName [66], by decide, by decide⟩⟩
-
 def exDesc (desc : JStr) : Mappings :=
   { ns := [[97], [98]], doc := none,
     classes := [
@@ -329,14 +363,18 @@ def exDesc (desc : JStr) : Mappings :=
         { names := [some [65], none], doc := none, methods := [],
           fields := [(([102], desc), { desc := desc, names := [some [102], none], doc := none })] })] }
 
-/-- a name that is not UTF-8 (lone surrogate U+D800): `write` yields no text (the real code panics); a descriptor with a
-lone surrogate is written with U+FFFD and comes back changed -/
-theorem surrogate_witness :
-    write? (exName [66, 55296]) = none ∧
-    read 2 (write (exDesc [76, 55296, 59])) = some (exDesc [76, 65533, 59]) := by
-  decide
+/-- (were `name_tab_witness`, `name_cr_witness`, `name_lf_witness`, `fixed_point_cr_lf_name_witness`) names with TAB, with a
+trailing CR, with LF and TABs (`B⏎c⇥C⇥D`, which used to make the reader see a second class) are refused by `write` -/
+theorem name_tab_cr_lf_rejected :
+    write? (exName [66, 9, 67]) = none ∧ write? (exName [66, 13]) = none ∧ write? (exName [66, 10]) = none ∧
+    write? (exName [66, 10, 99, 9, 67, 9, 68]) = none ∧ write? (exDesc [73, 9, 120]) = none ∧
+    write? { exName [66] with ns := [[97], [98, 13]] } = none := by decide
 
-/-- a class without a name in the first namespace cannot be read back -/
+/-- (was `surrogate_witness`) a name or descriptor that is not UTF-8 (lone surrogate U+D800) is refused: an `Err`, where
+the code used to panic (name) or to write U+FFFD (descriptor) -/
+theorem non_utf8_rejected : write? (exName [66, 55296]) = none ∧ write? (exDesc [76, 55296, 59]) = none := by decide
+
+/-- a class without a name in the first namespace is written but cannot be read back (outside `wf`) -/
 theorem no_source_name_witness :
     read 2 (write { exBsN with classes := [([65], { names := [none, some [66]], doc := none, fields := [], methods := [] })] }) = none := by
   decide
